@@ -9,46 +9,48 @@ open ZodbModel ZodbModel.Blob
 /-- the three things one iteration can do -/
 inductive StepKind (h : List Rec) (tid : Nat) (a : UndoAcc) (r : Rec) (a' : UndoAcc) : Prop where
   | stuck (hf : a'.files = a.files) (hd : a'.dirty = a.dirty) (hs : a'.staged = a.staged)
-      (he : a'.evs = a.evs) (hflag : (a'.failures || a'.broken) = true)
+      (he : a'.evs = a.evs) (hseen : a'.seen = a.seen) (hflag : (a'.failures || a'.broken) = true)
   | record (hf : a'.files = a.files) (hd : a'.dirty = a.dirty)
-      (hs : a'.staged = undoRec h r tid :: a.staged) (he : a'.evs = a.evs)
+      (hs : a'.staged = undoRec h r tid :: a.staged.filter fun q => decide (q.oid ≠ r.oid))
+      (he : a'.evs = a.evs)
       (hfl : a'.failures = a.failures) (hbr : a'.broken = a.broken)
       (hk : (undoRec h r tid).kind ≠ .blob)
-      (hns : ∀ q ∈ a.staged, q.oid ≠ r.oid)
+      (hseen : a'.seen = r.oid :: a.seen) (hnew : r.oid ∉ a.seen)
+      (hnone : aget a.files (r.oid, tid) = none)
   | copy (b : Bytes) (hb : aget a.files (r.oid, (undoRec h r tid).src) = some b)
       (hf : a'.files = aset a.files (r.oid, tid) b) (hd : a'.dirty = (r.oid, tid) :: a.dirty)
-      (hs : a'.staged = undoRec h r tid :: a.staged)
+      (hs : a'.staged = undoRec h r tid :: a.staged.filter fun q => decide (q.oid ≠ r.oid))
       (he : a'.evs = a.evs ++ [.create .scratch, .write .scratch, .rename .scratch (.blob (r.oid, tid))])
       (hfl : a'.failures = a.failures) (hbr : a'.broken = a.broken)
       (hk : (undoRec h r tid).kind = .blob)
-      (hns : ∀ q ∈ a.staged, q.oid ≠ r.oid)
+      (hseen : a'.seen = r.oid :: a.seen) (hnew : r.oid ∉ a.seen)
 
 theorem undoOne_kind (h : List Rec) (tid : Nat) (a : UndoAcc) (r : Rec) :
     StepKind h tid a r (undoOne h tid a r) := by
   unfold undoOne
   split
   · rename_i hbr
-    exact .stuck rfl rfl rfl rfl (by simp [hbr])
+    exact .stuck rfl rfl rfl rfl rfl (by simp [hbr])
   · split
-    · exact .stuck rfl rfl rfl rfl (by simp)
+    · exact .stuck rfl rfl rfl rfl rfl (by simp)
     · rename_i hns
-      have hnst : ∀ q ∈ a.staged, q.oid ≠ r.oid := by
-        intro q hq he
-        apply hns
-        simp only [List.any_eq_true]
-        exact ⟨q, hq, by simpa using he⟩
+      have hnew : r.oid ∉ a.seen := by
+        intro hc; apply hns; simpa using hc
       split
-      · exact .stuck rfl rfl rfl rfl (by simp)
+      · exact .stuck rfl rfl rfl rfl rfl (by simp)
       · simp only
         split
         · rename_i hkind
           split
-          · exact .stuck rfl rfl rfl rfl (by simp)
+          · exact .stuck rfl rfl rfl rfl rfl (by simp)
           · rename_i b hb
-            exact .copy b hb rfl rfl rfl rfl rfl rfl hkind hnst
+            exact .copy b hb rfl rfl rfl rfl rfl rfl hkind rfl hnew
         all_goals
           rename_i hkind
-          exact .record rfl rfl rfl rfl rfl rfl (fun hc => hkind hc) hnst
+          split
+          · exact .stuck rfl rfl rfl rfl rfl (by simp)
+          · rename_i hnone
+            exact .record rfl rfl rfl rfl rfl rfl (fun hc => hkind hc) rfl hnew hnone
 
 /-- the loop only touches file names that carry the tid of the transaction in progress -/
 theorem undoOne_frame (h : List Rec) (tid : Nat) (a : UndoAcc) (r : Rec) (k : Key)
@@ -96,41 +98,12 @@ theorem undoFold_evs (h : List Rec) (tid : Nat) (recs : List Rec) (a : UndoAcc)
   | nil => exact ha
   | cons r rs ih => exact ih _ (undoOne_evs h tid a r ha)
 
-/-- an existing file is never overwritten by the loop -/
-theorem undoOne_files_mono {s : St} {t : Txn} {a : UndoAcc} (hI : Inv (accSt s t a)) (r : Rec)
-    (k : Key) (b : Bytes) (hkb : aget a.files k = some b) :
-    aget (undoOne s.hist t.tid a r).files k = some b := by
-  have hn : (accSt s t a).txn = some (accTxn t a) := rfl
-  cases undoOne_kind s.hist t.tid a r with
-  | stuck hf => rw [hf]; exact hkb
-  | record hf => rw [hf]; exact hkb
-  | copy b' hb hf _ _ _ _ _ _ hns =>
-    rw [hf, aget_aset]
-    by_cases e : k = (r.oid, t.tid)
-    · exfalso
-      have h1 : (aget (accSt s t a).files k).isSome := by
-        show (aget a.files k).isSome; rw [hkb]; rfl
-      have h2 := (hI.own_file hn k (by subst e; rfl)).1 h1
-      obtain ⟨q, hq, hqk, _⟩ := hI.dirtyStaged _ hn k h2
-      apply hns q hq
-      have := congrArg Prod.fst hqk
-      rw [e] at this; exact this
-    · simp only [e, if_false]; exact hkb
-
-theorem undoFold_files_mono {s : St} {t : Txn} (hfs : s.flavor = .fs) (recs : List Rec)
-    {a : UndoAcc} (hI : Inv (accSt s t a)) (k : Key) (b : Bytes) (hkb : aget a.files k = some b) :
-    aget (recs.foldl (undoOne s.hist t.tid) a).files k = some b := by
-  induction recs generalizing a with
-  | nil => exact hkb
-  | cons r rs ih =>
-    exact ih (inv_undoOne hfs hI r) (undoOne_files_mono hI r k b hkb)
-
 /-- the failure flags never go down -/
 theorem undoOne_flags (h : List Rec) (tid : Nat) (a : UndoAcc) (r : Rec)
     (hf : (a.failures || a.broken) = true) :
     ((undoOne h tid a r).failures || (undoOne h tid a r).broken) = true := by
   cases undoOne_kind h tid a r with
-  | stuck _ _ _ _ hflag => exact hflag
+  | stuck _ _ _ _ _ hflag => exact hflag
   | record _ _ _ _ hfl hbr => rw [hfl, hbr]; exact hf
   | copy _ _ _ _ _ _ hfl hbr => rw [hfl, hbr]; exact hf
 
@@ -160,39 +133,28 @@ theorem finv_step {s : St} {t : Txn} (hfs : s.flavor = .fs) {a : UndoAcc} (h : F
     FInv s t (undoOne s.hist t.tid a r) :=
   ⟨inv_undoOne hfs h.1 r, fun k hk => by rw [undoOne_frame _ _ _ _ k hk]; exact h.2 k hk⟩
 
-/-- no staged record for `oid` ⇒ no file `(oid, tid in progress)` -/
-theorem no_file_of_not_staged {s : St} {t : Txn} {a : UndoAcc} (hI : Inv (accSt s t a)) {oid : Nat}
-    (hns : ∀ q ∈ a.staged, q.oid ≠ oid) : aget a.files (oid, t.tid) = none := by
-  have hn : (accSt s t a).txn = some (accTxn t a) := rfl
-  cases hc : aget a.files (oid, t.tid) with
-  | none => rfl
-  | some b =>
-    exfalso
-    have h1 : (aget (accSt s t a).files (oid, t.tid)).isSome := by
-      show (aget a.files (oid, t.tid)).isSome; rw [hc]; rfl
-    have h2 := (hI.own_file hn (oid, t.tid) rfl).1 h1
-    obtain ⟨q, hq, hqk, _⟩ := hI.dirtyStaged _ hn _ h2
-    exact hns q hq (congrArg Prod.fst hqk)
-
-/-- a successful iteration establishes `Restored` for its record -/
+/-- a successful iteration establishes `Restored` for its record (and marks its oid as seen) -/
 theorem restored_established {s : St} {t : Txn} {a : UndoAcc} (h : FInv s t a) (r : Rec)
     (hok : ((undoOne s.hist t.tid a r).failures || (undoOne s.hist t.tid a r).broken) = false) :
-    Restored s t (undoOne s.hist t.tid a r).staged (undoOne s.hist t.tid a r).files r := by
+    Restored s t (undoOne s.hist t.tid a r).staged (undoOne s.hist t.tid a r).files r ∧
+    r.oid ∈ (undoOne s.hist t.tid a r).seen := by
   have hn : (accSt s t a).txn = some (accTxn t a) := rfl
   cases undoOne_kind s.hist t.tid a r with
-  | stuck _ _ _ _ hflag => rw [hflag] at hok; cases hok
-  | record hf _ hs _ _ _ hk hns =>
-    refine ⟨undoRec s.hist r t.tid, by rw [hs]; exact List.mem_cons_self, undoRec_key _ _ _, ?_⟩
+  | stuck _ _ _ _ _ hflag => rw [hflag] at hok; cases hok
+  | record hf _ hs _ _ _ hk hseen _ hnone =>
+    refine ⟨⟨undoRec s.hist r t.tid, by rw [hs]; exact List.mem_cons_self, undoRec_key _ _ _, ?_⟩,
+      by rw [hseen]; exact List.mem_cons_self⟩
     have habs : aget (undoOne s.hist t.tid a r).files (r.oid, t.tid) = none := by
-      rw [hf]; exact no_file_of_not_staged h.1 hns
+      rw [hf]; exact hnone
     cases hp : prevRec s.hist r.oid r.tid with
     | none => exact ⟨undoRec_uncreate_of_none hp, habs⟩
     | some p =>
       have hkk := undoRec_kind_of_some (tid := t.tid) hp
       refine ⟨hkk, ?_, fun _ => habs⟩
       intro hb; rw [hkk] at hk; exact absurd hb hk
-  | copy b hb hf _ hs _ _ _ hk hns =>
-    refine ⟨undoRec s.hist r t.tid, by rw [hs]; exact List.mem_cons_self, undoRec_key _ _ _, ?_⟩
+  | copy b hb hf _ hs _ _ _ hk hseen _ =>
+    refine ⟨⟨undoRec s.hist r t.tid, by rw [hs]; exact List.mem_cons_self, undoRec_key _ _ _, ?_⟩,
+      by rw [hseen]; exact List.mem_cons_self⟩
     obtain ⟨p, hp, hpk, hsrc⟩ := undoRec_blob hk
     obtain ⟨hpm, hpo, hpt⟩ := prevRec_mem hp
     have hpfresh : p.tid < t.tid := h.1.fresh _ hn p hpm
@@ -208,36 +170,43 @@ theorem restored_established {s : St} {t : Txn} {a : UndoAcc} (h : FInv s t a) (
     intro _
     rw [hfile, hsame]; exact ⟨rfl, rfl⟩
 
-/-- later iterations do not disturb what an earlier one established -/
+/-- later iterations of the same undo call do not disturb what an earlier one established -/
 theorem restored_preserved {s : St} {t : Txn} {a : UndoAcc} (r r2 : Rec)
-    (hR : Restored s t a.staged a.files r) :
-    Restored s t (undoOne s.hist t.tid a r2).staged (undoOne s.hist t.tid a r2).files r := by
+    (hR : Restored s t a.staged a.files r) (hseen : r.oid ∈ a.seen) :
+    Restored s t (undoOne s.hist t.tid a r2).staged (undoOne s.hist t.tid a r2).files r ∧
+    r.oid ∈ (undoOne s.hist t.tid a r2).seen := by
   obtain ⟨nr, hnr, hkey, hm⟩ := hR
+  have hnro : nr.oid = r.oid := congrArg Prod.fst hkey
   cases undoOne_kind s.hist t.tid a r2 with
-  | stuck hf _ hs => rw [hf, hs]; exact ⟨nr, hnr, hkey, hm⟩
-  | record hf _ hs =>
-    rw [hf, hs]; exact ⟨nr, List.mem_cons_of_mem _ hnr, hkey, hm⟩
-  | copy b _ hf _ hs _ _ _ _ hns =>
-    have hne : r2.oid ≠ r.oid := by
-      intro e
-      apply hns nr hnr
-      have := congrArg Prod.fst hkey
-      rw [e]; exact this
+  | stuck hf _ hs _ hsn => rw [hf, hs, hsn]; exact ⟨⟨nr, hnr, hkey, hm⟩, hseen⟩
+  | record hf _ hs _ _ _ _ hsn hnew =>
+    have hne : r2.oid ≠ r.oid := fun e => hnew (e ▸ hseen)
+    have hmem : nr ∈ a.staged.filter fun q => decide (q.oid ≠ r2.oid) :=
+      List.mem_filter.2 ⟨hnr, by rw [hnro]; simpa using fun e => hne e.symm⟩
+    rw [hf, hs, hsn]
+    exact ⟨⟨nr, List.mem_cons_of_mem _ hmem, hkey, hm⟩, List.mem_cons_of_mem _ hseen⟩
+  | copy b _ hf _ hs _ _ _ _ hsn hnew =>
+    have hne : r2.oid ≠ r.oid := fun e => hnew (e ▸ hseen)
+    have hmem : nr ∈ a.staged.filter fun q => decide (q.oid ≠ r2.oid) :=
+      List.mem_filter.2 ⟨hnr, by rw [hnro]; simpa using fun e => hne e.symm⟩
     have hfile : aget (undoOne s.hist t.tid a r2).files (r.oid, t.tid) = aget a.files (r.oid, t.tid) := by
       rw [hf, aget_aset]
       have : ((r.oid, t.tid) : Key) ≠ (r2.oid, t.tid) := by
         intro e; exact hne (congrArg Prod.fst e).symm
       simp [this]
-    refine ⟨nr, by rw [hs]; exact List.mem_cons_of_mem _ hnr, hkey, ?_⟩
+    refine ⟨⟨nr, by rw [hs]; exact List.mem_cons_of_mem _ hmem, hkey, ?_⟩,
+      by rw [hsn]; exact List.mem_cons_of_mem _ hseen⟩
     rw [hfile]; exact hm
 
 theorem restored_fold_preserved {s : St} {t : Txn} (recs : List Rec) {a : UndoAcc} (r : Rec)
-    (hR : Restored s t a.staged a.files r) :
+    (hR : Restored s t a.staged a.files r) (hseen : r.oid ∈ a.seen) :
     Restored s t (recs.foldl (undoOne s.hist t.tid) a).staged
       (recs.foldl (undoOne s.hist t.tid) a).files r := by
   induction recs generalizing a with
   | nil => exact hR
-  | cons r2 rs ih => exact ih (restored_preserved r r2 hR)
+  | cons r2 rs ih =>
+    obtain ⟨h1, h2⟩ := restored_preserved r r2 hR hseen
+    exact ih h1 h2
 
 /-- if the whole loop ends without failure, every record of the list has been restored -/
 theorem undoFold_restored {s : St} {t : Txn} (hfs : s.flavor = .fs) (recs : List Rec) {a : UndoAcc}
@@ -253,13 +222,14 @@ theorem undoFold_restored {s : St} {t : Txn} (hfs : s.flavor = .fs) (recs : List
     simp only [List.foldl_cons] at hok ⊢
     rcases List.mem_cons.1 hr with hr | hr
     · subst hr
-      apply restored_fold_preserved
-      apply restored_established h
-      cases hfl : ((undoOne s.hist t.tid a r).failures || (undoOne s.hist t.tid a r).broken) with
-      | false => rfl
-      | true =>
-        have := undoFold_flags s.hist t.tid rs _ hfl
-        rw [this] at hok; cases hok
+      have hstep : ((undoOne s.hist t.tid a r).failures || (undoOne s.hist t.tid a r).broken) = false := by
+        cases hfl : ((undoOne s.hist t.tid a r).failures || (undoOne s.hist t.tid a r).broken) with
+        | false => rfl
+        | true =>
+          have := undoFold_flags s.hist t.tid rs _ hfl
+          rw [this] at hok; cases hok
+      obtain ⟨h1, h2⟩ := restored_established h r hstep
+      exact restored_fold_preserved rs r h1 h2
     · exact ih (finv_step hfs h r0) hok r hr
 
 end Proofs.Blob
